@@ -209,7 +209,10 @@ PROPS["C04"] = dict(
                     reach=["execed", "drop-caps", "nnp", "filter", "setgroups", "into-cgroup", "fexecve"] + (["stops-first"] if i else []) + ["sync"]) for i in range(4)] +
               [dict(pkg=FE, run="^VerifC04_Options$", tiers=["thorough"], replay="model", preempt=0, timeout=30000, max_paths=30000000),
                # the kernel refusing an id-map file stops the launch: no program in a user namespace without its maps
-               dict(pkg=FE, run="^VerifC04_IdMapRefused$", replay="model", preempt=0, timeout=1500, reach=["start-error"])],
+               dict(pkg=FE, run="^VerifC04_IdMapRefused$", replay="model", preempt=0, timeout=1500, reach=["start-error"]),
+               # runner level: how unshare.Runner.Run builds the launcher configuration (filter iff given, nnp and namespaces always)
+               dict(pkg=US, run="^VerifC04_RunnerBuildsLauncher$", replay="model", preempt=0, reach=["returned", "no-filter", "filter"]),
+               dict(pkg=RP, run="^VerifC04_PtraceRunnerBuildsLauncher$", replay="model", preempt=0, reach=["returned", "no-filter", "filter"])],
 )
 
 PROPS["C06"] = dict(
